@@ -187,6 +187,10 @@ def kinds(core_only: bool = False, raisers: bool = True):
     if IFAPPLY_ENABLED:
         r0 = random.Random(4711)
         ks += [
+            # the rule that switches the action family for its sub-rules (and back): family 1 is created by attach_actions
+            ('action_rule', 1, lambda x: P('action', FAM(1), x), 'actrule'),
+            ('action_rule2', 2, lambda x, y: P('action', FAM(1), x, y), 'actrule'),
+            ('action_rule_nested', 2, lambda x, y: P('action', FAM(1), P('seq', x, P('action', FAM(0), y), x)), 'actrule'),
             ('if_apply1', 1, lambda x: P('if_apply', x, *rule_acts(r0)), 'apply'),
             ('if_apply1v', 1, lambda x: P('if_apply', x, *rule_acts(r0, 'void')), 'apply'),
             ('if_apply_veto', 1, lambda x: P('if_apply', x, RACT(_next_ract(), True, 1)), 'apply'),                      # always returns false
@@ -543,6 +547,18 @@ class RandGen:
 
 
 def attach_actions(rng: random.Random, g: Grammar, mode: str):
+    """See _attach_actions; afterwards every action family named by an `action< A, R... >` rule of the grammar exists (void actions on about
+    half of the controlled rules when the mode did not create it)."""
+    _attach_actions(rng, g, mode)
+    for nd in g.nodes.values():
+        if nd.kind == 'action':
+            fam = nd.params[0]
+            fam = fam[1] if isinstance(fam, (tuple, list)) else int(fam)
+            if fam != 0 and fam not in g.fams:
+                g.fams[fam] = {nid: ActSpec(rng.choice(['apply', 'apply0'])) for nid, n2 in g.nodes.items() if n2.ctl and rng.random() < 0.5}
+
+
+def _attach_actions(rng: random.Random, g: Grammar, mode: str):
     """mode: none | void | bool | throw | throwmany | switch | states.  Attach to ~half of the controlled nodes.
     switch: bool-style actions plus disable_action / enable_action / change_action< family 1 > bases, and a second action family."""
     g.acts.clear()
@@ -635,6 +651,8 @@ def atom_zoo():
     from .gram import X
     return [
         ('any', P('any')), ('one', P('one', C(49))), ('one2', P('one', C(49), C(97))), ('not_one', P('not_one', C(49))),
+        ('one0', P('one')), ('not_one0', P('not_one')), ('ranges0', P('ranges')), ('ranges1', P('ranges', C(53))), ('string0', P('string')), ('istring0', P('istring')),
+        ('bytes0', P('bytes', N(0))), ('range_same', P('range', C(53), C(53))), ('not_range_same', P('not_range', C(53), C(53))),
         ('range', P('range', C(48), C(53))), ('not_range', P('not_range', C(48), C(53))),
         ('ranges', P('ranges', C(48), C(50), C(97), C(98), C(54))), ('string', P('string', C(49), C(50))), ('string3', P('string', C(49), C(50), C(53))),
         ('istring', P('istring', C(97), C(49))), ('bytes2', P('bytes', N(2))), ('require2', P('require', N(2))),
